@@ -77,8 +77,27 @@ def judge(c, op, cfg, raw):
     return None
 
 
+def straight(c):
+    """every control point of both curves lies on one straight line (exact)"""
+    pts = list(zip(*c["c1"])) + list(zip(*c["c2"]))
+    p0 = pts[0]
+    p1 = next((p for p in pts if p != p0), None)
+    if p1 is None:
+        return False
+    return all((p1[0] - p0[0]) * (p[1] - p0[1]) - (p1[1] - p0[1]) * (p[0] - p0[0]) == 0 for p in pts)
+
+
 def known(c, op, cfg, raw):
     v = judge(c, op, cfg, raw)
+    if v and c["n"] >= 2 and straight(c) and "ok" in raw:
+        # a straight segment presented with degree >= 2 (non-uniform speed): the curved pipeline handles it as curves, the
+        # collinear special case of check_lines is never reached
+        arr, flag = dec_res(raw["ok"])
+        cols = list(zip(arr[0], arr[1])) if arr and len(arr) == 2 else []
+        genuine = all(io.residual(c["c1"], c["c2"], s_, t_) <= F(1, 2 ** 30) * max(io.net_size(c["c1"]), F(1)) for s_, t_ in cols)
+        if genuine and c["kind"] in ("overlap", "touch"):
+            return ("F17 two pieces of one STRAIGHT segment that is presented as a curve of degree >= 2 with non-uniform speed: a shared piece is "
+                    "reported as isolated unflagged point(s), a single touching point as a flagged zero-width segment (everything reported is a genuine common point)")
     if v and v.startswith("ORDER") and c.get("rev"):
         return "F10 opposite-direction overlap: the two end points are reported in second-curve order (first-curve parameter decreasing)"
     if v and v.startswith("touching arcs flagged") and c["n"] == 1 and "ok" in raw:   # straight segments (possibly degree-elevated)
@@ -96,6 +115,9 @@ def run(ctx):
     prove(ctx, DEPS)
     ic.correspond_lines(ctx, name="collinear_lattice_segments", n_quick=300, n_thorough=20000)
     cases = gen_overlaps(ctx)
+    # pinned instance of known finding F17 (a straight segment presented as a quadratic with non-uniform speed)
+    cases.insert(0, {"c1": [[F(159, 64), F(27, 16), F(3, 4)], [F(-3, 2)] * 3], "c2": [[F(-81, 64), F(57, 64), F(159, 64)], [F(-3, 2)] * 3],
+                     "a": F(1, 8), "b": F(1, 2), "c": F(1, 8), "d": F(7, 8), "rev": True, "lo": F(1, 8), "hi": F(1, 2), "n": 2, "kind": "overlap"})
     a = lambda c: [enc_arr(c["c1"]), enc_arr(c["c2"])]
     sweep(ctx, "overlapping_subarcs", cases, [("hazmat.all_intersections", a), ("shim.all_intersections", a)], judge, known=known)
     st = ctx.corr.get("sweep:overlapping_subarcs", {})
